@@ -24,6 +24,8 @@ pub enum Step {
     /// administrator writes a public key (same in both worlds)
     AdminSetPublic { key: String },
     AdminRemoveToken,
+    /// the administrator tries to get rid of the token through another command that ends in a remove
+    AdminRemoveTokenVia { line: String },
 }
 
 #[derive(Clone, Debug, Serialize, Deserialize)]
@@ -143,7 +145,13 @@ fn gen(rng: &mut Rng) -> Program {
                 0 | 1 => Step::AdminSetSecret { key: ["$$secret", "$$user_x", "$$permission_$x"][rng.below(3) as usize].to_string() },
                 2 | 3 => Step::AdminConflictSecret { key: "$$secret".into() },
                 4 => Step::AdminSetPublic { key: ["secret", "$secret"][rng.below(2) as usize].to_string() },
-                _ => Step::AdminRemoveToken,
+                _ => {
+                    if rng.chance(1, 2) {
+                        Step::AdminRemoveToken
+                    } else {
+                        Step::AdminRemoveTokenVia { line: ["replicate-remove d $$token", "rp 9 remove $$token", "rp 9 replicate-remove d $$token"][rng.below(3) as usize].to_string() }
+                    }
+                }
             });
         }
         steps.push(Step::Low {
@@ -270,6 +278,13 @@ fn execute(prog: Program, variant: &'static str) -> WorldResult {
                 let still = dump_db(&dbs, "d").and_then(|d| d.get("$$token").map(|e| (e.value.clone(), e.deleted)));
                 if still != Some(("tok".to_string(), false)) {
                     out.violations.push(Violation::new("token-removed", "admin".to_string(), format!("step #{} `remove $$token` by the administrator => {:?}, $$token is now {:?}", i, r.resp, still)));
+                }
+            }
+            Step::AdminRemoveTokenVia { line } => {
+                let r = admin.exec(line);
+                let still = dump_db(&dbs, "d").and_then(|d| d.get("$$token").map(|e| (e.value.clone(), e.deleted)));
+                if still != Some(("tok".to_string(), false)) {
+                    out.violations.push(Violation::new("token-removed", format!("admin:{}", line.split(' ').filter(|w| !w.starts_with("$$") && w.parse::<i32>().is_err() && *w != "d").collect::<Vec<_>>().join("+")), format!("step #{} `{}` by the administrator => {:?}, $$token is now {:?}", i, line, r.resp, still)));
                 }
             }
             Step::Low { template, key } => {
